@@ -256,6 +256,12 @@ func (sr *SoftResource) check() {
 	}
 }
 
+// copyValue returns a copy of a field value (of any attribute or relationship
+// type) that shares no slice with v. A nil value gives nil.
+func copyValue(v any) any {
+	return copyData(map[string]any{"v": v})["v"]
+}
+
 func copyData(d map[string]any) map[string]any {
 	d2 := map[string]any{}
 
